@@ -1,5 +1,6 @@
 (* Conversions between OCaml data and the extracted inductive numbers; line/field parsing. *)
 open Model
+type string = Stdlib.String.t
 
 let rec pos_of_int (i : int) : positive =
   if i = 1 then XH else if i land 1 = 1 then XI (pos_of_int (i lsr 1)) else XO (pos_of_int (i lsr 1))
